@@ -97,7 +97,7 @@ def judge(bm, spec, acc, case=None):
 
 
 def bm_box(bm):
-    return max(propka.bonds.BOX_SIZE, bm.max_sq_distance ** 0.5 + 0.01)
+    return max(getattr(propka.bonds, 'BOX_SIZE', 2.5), bm.max_sq_distance ** 0.5 + 0.01)   # only used to place atoms relative to cell faces
 
 
 def plan(tier, seed):
